@@ -189,10 +189,13 @@ def compute_dyadic_downscaling(info, source_scale_index, downscaler,
     half_chunk = [osz // f
                   for osz, f in zip(old_chunk_size, downscaling_factors)]
     # Each new chunk is assembled from one or two downscaled old chunks along
-    # every axis, other geometries would be filled from the wrong region.
-    if any(osz % f != 0 or nsz not in (hc, 2 * hc)
-           for osz, nsz, f, hc in zip(old_chunk_size, new_chunk_size,
-                                      downscaling_factors, half_chunk)):
+    # every axis, other geometries would be filled from the wrong region
+    # (unless the whole axis fits in the first old chunk).
+    if any(osz % f != 0 or hc < 1
+           or (nsz not in (hc, 2 * hc) and ns > min(nsz, hc))
+           for osz, nsz, f, hc, ns in zip(old_chunk_size, new_chunk_size,
+                                          downscaling_factors, half_chunk,
+                                          new_size)):
         raise ValueError("Unsupported combination of chunk sizes between "
                          f"scales {old_key} ({old_chunk_size}) and {new_key} "
                          f"({new_chunk_size})")
